@@ -1,30 +1,72 @@
 # configuration of ./check for property C07 (see props_config.py)
 CONFIG = {'gen': ['SmbCommands'],
- 'drivers': ['Smb'],
- 'rule': 'cases = for each of the 114 factory-reachable command structures: valid encodings of generated assignments, every truncation of '
-         'each, every position x {00,01,7f,80,fe,ff}, random splices and random bytes -> Unmarshal outcome class (value / error / panic / '
-         "timeout) of the real code vs the IR semantics; the specification is 'never panic, never hang'. distinct = distinct line; "
-         'non-trivial = not the plain error outcome',
- 'assumptions': ['allocation is bounded by the input because every slice of the models is a sub-slice of the input or of a stream no '
-                 'longer than the input; real memory use is additionally capped by GOMEMLIMIT in the harness',
-                 'stdlib internals do not panic'],
+ 'drivers': ['Smb', 'C06', 'C08', 'C09', 'C10', 'C11', 'C12', 'C13', 'C14', 'C15', 'C16', 'C20'],
+ 'rule': 'cases = (a) for each of the 114 factory-reachable SMB command structures: valid encodings of generated assignments, every '
+         'truncation of each, every position x {00,01,7f,80,fe,ff}, random splices and random bytes -> Unmarshal outcome class of the real '
+         'code vs the IR semantics; (b) for each of the 55 other modelled decoding ops (C06 wire types x14, ParseChallengeMessage, '
+         'ParseTargetInfo, ExtractNTLMToken, ParseNegTokenResp, LLMNR DecodeMessage / DecodeDomainName / ValidateDomainName, NBNS '
+         'Unmarshal / FirstLevelDecode, NBT Receive over loopback TCP, pkcs7.Unpad, DecodeUTF16LE, GPPPDecryptBytes / Base64, UUID / '
+         'UUIDv1 / v2 / v8 Unmarshal and FromString, UUIDv1.FromBytes, GUID FromRawBytes / FromFormatN,D,B,P,X / FromString, '
+         'KeyCredential.FromBytes, RSAKeyMaterial / CustomKeyInformation / KeyCredentialVersion .FromBytes, DNWithBinary.Parse, '
+         'ConvertToBinaryIdentifier, ConvertFromBinaryTime, the two LDAP time parsers, ParseSIDFromBytes, GetDomainFromDistinguishedName, '
+         "NewIPv4/IPv6FromString, NewTCPPortRangeFromString, ParseLMNTHashes): ~10 valid inputs (the owning property's generator filtered "
+         'by op, or builders calling the real encoders) and a few rejected ones; from each: every truncation, every position x '
+         '{00,01,7f,80,fe,ff}, every 16-/32-bit window x {0,1,2,7f,80,ff,100,7fff,8000,fffe,ffff,len,len-pos,...} in both byte orders, '
+         'splices with other valid inputs, chunk deletion / duplication / insertion, trailing bytes (sampled to ~2500 cases per op quick, '
+         'x4 thorough); for text parsers every truncation, each separator doubled / removed / replaced, digit runs replaced by over-long '
+         'ones (2^64, 23 nines, 300 zeros), NUL / 0x80 / UTF-8 letters / U+2003 inserted at every position; then empty input, all-00 / '
+         'all-ff of 14 lengths, random bytes / random text; LLMNR offsets {0,1,len-1,len,len+1,12,65535,2^31,2^62-1} and negative ones; '
+         'real code vs model (tie) and "never panic, never time out" on every case; (c) campaign only, no model line (44 ops): Message / '
+         'Header / Parameters / Data.Unmarshal, AuthContext.ProcessChallengeToken, LLMNR DecodeQuestion / DecodeResourceRecord, '
+         'UUIDv1/v2/v8.FromBytes, KeyStrength / KeySource / SecretEncryptionType .FromBytes, the three SecurityFeatures blocks, the 28 '
+         'TRANS2 information levels (stub bodies). The input slices have capacity = length. distinct = distinct line; non-trivial = not '
+         'the plain error outcome',
+ 'assumptions': ['allocation: every slice of the models is a sub-slice or copy of the input (bounds proved for key material, '
+                 'DN-with-binary, PKCS#7, the C06 byte counts) except decoded LLMNR/NBNS names, bounded by llmnr_name_alloc_bound; real '
+                 'memory use is additionally capped by GOMEMLIMIT in the harness, not measured per case',
+                 'stdlib internals (encoding/asn1, base64, hex, strconv, regexp, utf16, crypto/aes) do not panic',
+                 'the repairs fixes/C07-*.diff (and the earlier fixes/C03-data-unmarshal-guard, C06-*, C08-*, C12-gppp-odd-length, '
+                 'C13-guid-strict-dbp, C20-ipv4-parse) are applied to the tree under test',
+                 'integer arguments of exported decoders other than the LLMNR offsets are not inputs of the property; negative LLMNR '
+                 "offsets are covered by the campaign only (the model's offsets are naturals)"],
  'trusted': ['tools/extract/smb_commands.go (statement-by-statement translation of the 115 Marshal/Unmarshal bodies into the command IR; '
              'aborts on unknown shapes; its output is tied to the real code on every run)',
              'Go slice semantics incl. capacity of Data.Bytes and of the stream built by GetBytesStream (runtime growth policy 8,16,…,512) '
              'as modelled in SmbIR/SmbCmd',
-             'nested wire types through the C06 models (Manticore/Model/C06.lean, SmbCodecs adapters)'],
+             'nested wire types through the C06 models (Manticore/Model/C06.lean, SmbCodecs adapters)',
+             "the hand models Manticore/Model/C08..C16, C20 (each tied to the real code by its own property's check and, on malformed "
+             'input, by this campaign)'],
  'technique': 'Lean 4: kernel-decided Guarded predicate (every slice/index dominated by an implying length check) over unmarshal programs '
-              'regenerated from /repo on every run, with a soundness proof of the predicate for the IR semantics (abstract '
-              'interpretation: Known interpreted at run-time states); totality theorems of the hand models of the other decoders; differential '
-              'truncation/corruption campaign against the real code',
- 'level_text': 'The kernel decides on the unmarshal programs regenerated from /repo that in all 115 command structures every slice and '
-               'index expression is dominated by a length check that implies it (smb_all_commands_guarded; a dropped or weakened guard '
-               'makes the theorem fail and the campaign then looks for the panicking input); the envelope split never panics '
-               '(smb_split_total); the other decoding entry points are proved total on their own models (re-exported theorems). On every '
-               'run every truncation and single-byte boundary corruption of valid encodings is fed to the real Unmarshal of all 114 '
-               "commands and compared with the model's outcome. The static predicate is proved sound for the IR semantics "
-               '(guarded_sound: Guarded c -> runU C c … != panic for all streams, capacities, word counts and field values, given honest '
-               'nested decoders; std_honest: the codec table in use is honest, from per-type totality/boundedness theorems of the C06 '
-               'decoders), hence smb_decode_total: decodeCmd std c env0 data != panic for each of the 115 commands and every input.',
- 'level_note': 'Trusted: Lean kernel; axioms propext, Classical.choice, Quot.sound; extractor and IR semantics tied by differential '
-               'testing (bounded); Go runtime behaviour (stack depth, allocation) is observed, not modelled.'}
+              'regenerated from /repo on every run, with a soundness proof of the predicate for the IR semantics (abstract interpretation: '
+              'Known interpreted at run-time states); per-entry-point totality theorems of the hand models of all other decoders '
+              '(induction over the input / over the entry and pointer walks; termination = totality of the Lean definitions); differential '
+              'truncation / corruption / field-extreme / splice campaign against the real code with every panic or timeout reported as a '
+              'violation keyed by the innermost repo function',
+ 'level_text': 'SMB commands: the kernel decides on the unmarshal programs regenerated from /repo that in all 115 command structures every '
+               'slice and index expression is dominated by a length check that implies it (smb_all_commands_guarded; a dropped or weakened '
+               'guard makes the theorem fail and the campaign then looks for the panicking input); the static predicate is proved sound '
+               'for the IR semantics (guarded_sound, std_honest), hence smb_decode_total: decodeCmd std c env0 data != panic for each of '
+               'the 115 commands and every input; the envelope split and the 14 nested wire types never panic and report 0 < n <= '
+               'len(data) (smb_split_total, *_decode_total, *_decode_bounded). Every other decoding entry point is covered by a proved '
+               'theorem about its hand model, for all inputs: ntlm_challenge_parse_total, ntlm_target_info_total, spnego_extract_total, '
+               'spnego_neg_token_resp_total, spnego_process_challenge_total; llmnr_decode_message_total, llmnr_decode_name_total, '
+               'llmnr_name_alloc_bound (polynomial allocation through compression pointers); nbns_unmarshal_total, '
+               'nbns_first_level_decode_total, nbt_receive_total; pkcs7_unpad_total/_bounded, gpp_decrypt_bytes_total, '
+               'gpp_decrypt_base64_total, utf16_decode_total, utf16_decode_units; uuid_unmarshal_total, uuid_v1/v2/v8_unmarshal_total, '
+               'uuid_from_bytes_total, uuid_from_string_total, uuid_versions_from_string_total, guid_from_raw_bytes_total, '
+               'guid_parse_total, guid_from_string_total; key_credential_parse_total, key_credential_integrity_total, '
+               'key_credential_new_total, rsa_key_material_parse_total/_bounded, dn_with_binary_parse_total/_bounded, '
+               'key_credential_time_total, key_credential_device_id_total; sid_total; ipv4_parse_total, ipv6_parse_total, '
+               'port_range_parse_total, lmnt_parse_total. Models that are plain total functions need no theorem '
+               '(CustomKeyInformation.FromBytes, ConvertToBinaryIdentifier, KeyCredentialVersion.FromBytes, the LDAP time parsers, '
+               'GetDomainFromDistinguishedName, ValidateDomainName). Covered by the campaign only (no Gen-free model): Message / Header / '
+               "Parameters / Data.Unmarshal (their model is C03's, which imports the regenerated dispatch table; Parameters and Data also "
+               'through parameters_/data_decode_total), DecodeQuestion / DecodeResourceRecord as separate entry points (inside '
+               'DecodeMessage they are in the model), negative LLMNR offsets, UUIDv2/v8.FromBytes on the real code, KeyStrength / '
+               'KeySource / SecretEncryptionType .FromBytes, SecurityFeatures blocks, the 28 information levels, non-ASCII text into the '
+               'UUID / GUID text parsers (the C13 model is ASCII). On every run the campaign feeds ~135 000 (quick) / ~790 000 (thorough) '
+               'malformed inputs to the real code and compares the outcome class with the model; on the unpatched tree it reproduces every '
+               'repaired panic (8717 mismatching cases).',
+ 'level_note': 'Trusted: Lean kernel; axioms propext, Classical.choice, Quot.sound; extractor and IR semantics, and the hand models, tied '
+               'to the real code by differential testing (bounded); Go runtime behaviour (stack depth, allocation) is observed under a '
+               'per-op timeout and GOMEMLIMIT, not modelled; allocation is proved only where stated.'}
